@@ -9,7 +9,7 @@ import Nstd.Rc.Nested
     vcopy d s | vassign d s | vclear d | vseti d x | vsets d hex | vapp d hex | vpush d x | vswap a b | vsetl d x
     xcopy d s | xassign d s | xclear d | xsets d hex | xelem d hex
     pnew d x | pcopy d s | passign d s | pclear d | pswap a b
-    vpushv d s | vgetv d s k | xaddc d s | xgetc d s k     (payloads with several embedded handles, see Nested.lean)
+    vpushv d s | vgetv d s k | xaddc d s | xgetc d s k | apushv d s | agetv d s k    (payloads with several embedded handles, see Nested.lean)
     end                      (destroy every handle)
   Observation after every op:
     `<16 handle tokens> | <payload table> | live=<n> bad=<n>`
@@ -70,7 +70,7 @@ def embShown (st : St) (b : Nat) : List Nat :=
   match st.heap b with
   | some blk =>
     if blk.tag == tagObj then [embSlot b]
-    else if blk.tag == tagVList then (List.range blk.val.length).map (embSlotK b)
+    else if blk.tag == tagVList || blk.tag == tagVArr then (List.range blk.val.length).map (embSlotK b)
     else if blk.tag == tagXElem then (embKs st b).map (embSlotK b)
     else []
   | none => []
@@ -106,7 +106,7 @@ def payloadTok (st : St) (seen : List Nat) (i b : Nat) : String :=
     if st.freed b = 0 then
       let es := embShown st b
       s!"{i}:L:{blk.ref}:{blk.tag}:{toHex blk.val}" ++
-        (if blk.tag == tagObj || blk.tag == tagVList || blk.tag == tagXElem then
+        (if blk.tag == tagObj || blk.tag == tagVList || blk.tag == tagVArr || blk.tag == tagXElem then
           ">" ++ (if es.isEmpty then "-" else ",".intercalate (es.map embTok)) else "")
     else s!"{i}:X{st.freed b}"
   | none => if st.freed b = 1 then s!"{i}:F" else s!"{i}:X{st.freed b}"
@@ -192,6 +192,8 @@ def parseOp (ws : List String) : Option NOp :=
   | ["vgetv", d, s, k] => do pure (.vGetV (← idx 1 d) (← idx 1 s) (← num k))
   | ["xaddc", d, s] => do pure (.xAddC (← idx 2 d) (← idx 2 s))
   | ["xgetc", d, s, k] => do pure (.xGetC (← idx 2 d) (← idx 2 s) (← num k))
+  | ["apushv", d, s] => do pure (.aPushV (← idx 1 d) (← idx 1 s))
+  | ["agetv", d, s, k] => do pure (.aGetV (← idx 1 d) (← idx 1 s) (← num k))
   | _ => (parseFlat ws).map .flat
 
 /-! ### controlled interleaving -/
